@@ -1150,3 +1150,32 @@ def r7_6_previous_band_updates(ck, P):
                         ck.violation(R, f.name, 'previous-band index %s (%s)' % (H.dv or '', _w(u)), 'there is a path through one iteration of the scanline loop that neither extends the previous band in place nor moves %s on to the band of this line: the next line is then compared with, and merged into, a band that is not adjacent to it' % (H.dv or 'the index'), loc)
                     else:
                         ck.ok(R, where, 'kept only on paths through blocks %s' % sorted(merge))
+
+
+def r5_7_sort_key_fields(ck, P):
+    """sibling agreement inside the sort: every comparison between two boxes compares one field with the same field"""
+    R = ck.rule('C05-R7', 'in the rectangle sort every comparison between two boxes (scan from the left, scan from the right, the two-element case) compares a field with the same field of the other box — y1 with y1, x1 with x1 — so that all scans order by the same (y1, x1) key', floor=18)
+    for u in units(P):
+        f = next((g for n, g in u.functions.items() if n.startswith('quick_sort_rects')), None)
+        if f is None:
+            ck.incomplete(R, 'quick_sort_rects not found in ' + u.name); continue
+        ck.saw(f)
+        def fld(o):
+            x = f.v(o)
+            while x is not None and x.op in ('sext', 'zext', 'trunc'):
+                x = f.v(x.a[0])
+            if x is None or x.op != 'load':
+                return None
+            p = f.path(x.a[0])
+            return p[1][-1] if p[1] and isinstance(p[1][-1], str) and '.' in p[1][-1] else None
+        for x in f.insts():
+            if x.op != 'icmp':
+                continue
+            a, b = fld(x.a[0]), fld(x.a[1])
+            if a is None or b is None:
+                continue
+            where = '%s/%s %s: %s %s %s' % (u.name, f.name, x.loc(), a, x.d['p'], b)
+            if a != b:
+                ck.violation(R, f.name, 'comparison at line %s (%s)' % (x.loc().split(':')[-1], _w(u)), 'the sort compares %s of one box with %s of the other: this scan orders rectangles by a different key than the other scans of the same partition step, so the array can come out unsorted and the band merge that follows drops or duplicates area' % (a.split('.')[-1], b.split('.')[-1]), x.loc())
+            else:
+                ck.ok(R, where)
